@@ -537,6 +537,10 @@ def evaluate(ctx, recipe, run, modes):
                 len(rows), len(names), missing[:4], extra[:4]), None))
         for nm in names:
             if nm in got and nm in single and got[nm] != single[nm]:
+                if any(nm in g for g in groups) and got[nm][:3] + got[nm][4:] == single[nm][:3] + single[nm][4:]:
+                    # size_output is os.path.getsize of the shared output path after the other input overwrote it: F14 itself
+                    f14_detail.append('%s: size_output of %s is %d, alone %d' % (m, nm, got[nm][3], single[nm][3]))
+                    continue
                 fails.append((case, 'result of %s differs from converting it on its own: %r vs %r' % (nm, got[nm], single[nm]), None))
         tree = run['trees'][m]
         if set(tree) != set(union):
@@ -859,7 +863,7 @@ def corr_real_schedule(ctx, recipe, run, mode):
 
 def plan(ctx):
     """(fmt, n directories) for the tier; the first RP66V1 directory carries the F14 pair."""
-    return [('rp', ctx.n(16, 40)), ('lis', ctx.n(10, 22)), ('bit', ctx.n(10, 22))]
+    return [('rp', ctx.n(16, 60)), ('lis', ctx.n(10, 30)), ('bit', ctx.n(10, 30))]
 
 
 def record(ctx, recipe, run, modes, fails, single):
@@ -916,6 +920,23 @@ def run(ctx):
     ctx.note('exercise of the real converters took %.0f s; modes per directory: %s' % (time.time() - t0, ','.join(modes)))
 
 
+def search(ctx):
+    """Extra oracle budget (called when a proof/correspondence broke and no failing input was found yet)."""
+    base = os.path.join(ctx.scratch, 'c12s')
+    modes = modes_for(ctx, jobs=JOBS_QUICK)
+    k = 0
+    for fmt in ('rp', 'lis', 'bit', 'rp', 'lis', 'bit'):
+        for d in range(6):
+            recipe = gen_recipe(ctx.rng, fmt, tag='search-%s%d' % (fmt, d))
+            dbase = os.path.join(base, 'd%d' % k); k += 1
+            r = run_directory(recipe, dbase, modes)
+            fails, single = evaluate(ctx, recipe, r, modes)
+            record(ctx, recipe, r, modes, fails, single)
+            shutil.rmtree(dbase, ignore_errors=True)
+            if any(f[2] is None for f in fails):
+                return
+
+
 def replay(ctx, rec):
     case = rec.get('case') or {}
     recipe = case.get('recipe')
@@ -931,6 +952,8 @@ def replay(ctx, rec):
     for attempt in range(3 if mode not in (None, 'single', 'seq') else 1):   # a scheduling-dependent failure may need a few tries
         r = run_directory(recipe, dbase, modes)
         fails, _single = evaluate(ctx, recipe, r, modes)
+        if mode is not None:          # the recorded failure was not the known F14 class: look for unlisted failures only
+            fails = [f for f in fails if f[2] is None]
         if fails:
             return False, '%d oracle failure(s), first: %s' % (len(fails), fails[0][1])
         last = 'directory of %d files (%s), modes %s: all results and trees agree' % (len(recipe['files']), recipe['fmt'], modes)
